@@ -21,6 +21,7 @@ table = [  # (property, subject substring, what failed)
  ("C08", "ConsumeByKey does not step over messages", "ConsumeByKey on the head looked the key up and read the next offset as two steps: a Publish in between was stepped over without returning its messages (findings/C08-consumebykey-steps-over-publish.json)"),
  ("C08", "Delete with KeepRewriteVersion reads the writer", "data race: delete() read l.writer.messages.Version() without writerMu (KeepRewriteVersion) against the l.writer assignment of a concurrent rollover (log.go:398 vs log.go:180 at the pinned commit)"),
  ("C19", "OpenBlocking closes the log when wrapping it fails", "OpenBlocking left the opened log (and its directory lock) behind when WrapBlocking failed, e.g. a lazy read-only open meeting a corrupt index: every later Open failed with 'already locked' (findings/C19-openblocking-lock-leak.json)"),
+ ("C19", "OpenTBlocking closes the log when wrapping it fails", "OpenTBlocking (typed facade) had the same leak as OpenBlocking: the opened log and its directory lock stayed behind when WrapTBlocking failed; found once a share of the runs went through the typed facade (findings/C19-opentblocking-lock-leak.json)"),
  ("C19", "GC on a read-only log without segments", "read-only handle on a directory without segments: GC(0) unloaded the placeholder index and every later query failed with 'no such file or directory' (findings/C19-readonly-empty-gc.json)"),
  ("C15", "the time index no longer clamps timestamps before 1970", "messages dated before the Unix epoch were indexed at time 0 (the running maximum started at 0): GetByTime(1970) returned a message older than the query, FindByAge/TrimByAge with a later bound selected nothing (findings/C15-pre-epoch-times-clamped.json)"),
 ]
